@@ -79,7 +79,7 @@ static const struct enc ENC[] = {
 #else
 #define K_BASE VC_USER
 #endif
-enum { K_ENCCALLS = K_BASE, K_DECCALLS, K_CTRL_UNDECODABLE, K_STRING_PAYLOAD, K_BUFSIZES, K_REFUSED_SMALL, K_NAN, K_HALF, K_SINGLE, K_DOUBLE, K_TOTALITY, K_LOADS };
+enum { K_ENCCALLS = K_BASE, K_DECCALLS, K_CTRL_UNDECODABLE, K_STRING_PAYLOAD, K_BUFSIZES, K_REFUSED_SMALL, K_NAN, K_HALF, K_SINGLE, K_DOUBLE, K_TOTALITY, K_LOADS, K_NAN_PAYLOAD_KEPT, K_NAN_PAYLOAD_LOST };
 static vf_sb sb;
 
 /* expected RFC bytes for encoder e applied to raw value v (for floats: v = bit pattern of the argument;
@@ -445,6 +445,7 @@ static void one_single(uint32_t s, bool item, bool distinct) {
   vf_cnt(VC_TRANS, 1);
   if (r.status != CBOR_DECODER_FINISHED || rec.ncalls != 1 || rec.ev[0].slot != S_FLOAT4 || rec.ev[0].isnan != nan || (!nan && rec.ev[0].val != s))
     vf_fail(NULL, "single %08x decodes to %#" PRIx64 " (nan=%d)", s, rec.ev[0].val, rec.ev[0].isnan);
+  else if (nan) vf_cnt(rec.ev[0].len == s ? K_NAN_PAYLOAD_KEPT : K_NAN_PAYLOAD_LOST, 1); /* recorded, not judged: the properties require NaN-ness only */
   float f;
   memcpy(&f, &s, 4);
   uint8_t* o = vf_guard_end() - 5;
@@ -480,6 +481,7 @@ static void one_double(uint64_t d, bool distinct) {
   vf_cnt(VC_TRANS, 1);
   if (r.status != CBOR_DECODER_FINISHED || rec.ncalls != 1 || rec.ev[0].slot != S_FLOAT8 || rec.ev[0].isnan != nan || (!nan && rec.ev[0].val != d))
     vf_fail(NULL, "double %016" PRIx64 " decodes to %#" PRIx64 " (nan=%d)", d, rec.ev[0].val, rec.ev[0].isnan);
+  else if (nan) vf_cnt(rec.ev[0].len == d ? K_NAN_PAYLOAD_KEPT : K_NAN_PAYLOAD_LOST, 1);
   double x;
   memcpy(&x, &d, 8);
   uint8_t* o = vf_guard_end() - 9;
@@ -547,6 +549,7 @@ struct vf_check vf_the_check = {
                     "the host is IEEE-754 little-endian x86-64"},
     .counters = {[VC_EVAL] = "patterns_judged", [VC_DISTINCT] = "distinct_patterns", [VC_TRANS] = "stream_decodes", [VC_TRACES] = "executed_on_implementation",
                  [K_HALF] = "half_patterns", [K_SINGLE] = "single_patterns", [K_DOUBLE] = "double_patterns", [K_TOTALITY] = "encode_half_totality_calls",
-                 [K_LOADS] = "item_level_round_trips", [K_NAN] = "NaN_patterns"},
+                 [K_LOADS] = "item_level_round_trips", [K_NAN] = "NaN_patterns",
+                 [K_NAN_PAYLOAD_KEPT] = "recorded_not_judged_single_double_NaNs_decoded_with_payload_and_sign_intact", [K_NAN_PAYLOAD_LOST] = "recorded_not_judged_single_double_NaNs_decoded_to_another_NaN"},
     .init = init15, .units = units15, .unit = unit15, .replay = replay15};
 #endif
